@@ -1,6 +1,8 @@
 package main
 
 import (
+	"fmt"
+	"os"
 	"go/constant"
 	"go/token"
 	"go/types"
@@ -22,9 +24,36 @@ var (
 	idE4        = "(*leanhelix.WorkerLoop).handleUpdateState"
 	idMainRun   = "(*leanhelix.MainLoop).run"
 	syncMsgType = "leanhelix.blockWithProof"
+	idVoteSel   = "(*services/termincommittee.TermInCommittee).latestViewChangeVote"
 )
 
 func resolveEntries(p *Prog) {
+	idVoteSel = "(*services/termincommittee.TermInCommittee).latestViewChangeVote"
+	// the follower's selection of the vote with the highest prepared view: the one function of the term package that sorts
+	{
+		var sel []string
+		for _, f := range p.Funcs {
+			if f.Parent() != nil || !strings.HasSuffix(funcPkgPath(f), "services/termincommittee") {
+				continue
+			}
+			for _, b := range f.Blocks {
+				for _, in := range b.Instrs {
+					if ci, ok := in.(ssa.CallInstruction); ok {
+						if sc := ci.Common().StaticCallee(); sc != nil && sc.Pkg != nil && sc.Pkg.Pkg.Path() == "sort" && sc.Name() != "init" {
+							sel = append(sel, funcID(f))
+						}
+					}
+				}
+			}
+		}
+		sel = dedupSorted(sel)
+		if os.Getenv("LH_DEBUG_ENTRIES") != "" {
+			fmt.Fprintln(os.Stderr, "vote selection candidates:", sel)
+		}
+		if len(sel) == 1 {
+			idVoteSel = sel[0]
+		}
+	}
 	idE3 = "(*services/termincommittee.TermInCommittee).moveToNextLeaderByElection"
 	idE4 = "(*leanhelix.WorkerLoop).handleUpdateState"
 	idMainRun = "(*leanhelix.MainLoop).run"
